@@ -183,6 +183,7 @@ class Interp:
                 d.add_eq(sym, Z, nn["value"])
                 return
             if nn.get("k") == "member" and nn.get("dk") == "field":
+                self.env.fields_read.add(strip_tmpl(nn.get("name", "")))
                 inv = self.env.field_inv.get(strip_tmpl(nn.get("name", "")))
                 if inv is not None:
                     up, tnt = inv
@@ -2182,7 +2183,7 @@ def analyse_scope(facts, roots, extra=()):
     for _ in range(4):
         env = analyse(facts, list(fns.values()), roots=roots)
         missing = {}
-        for q in env.field_inv:
+        for q in sorted(env.fields_read):
             for wf, _, _ in field_writes(facts, q):
                 if wf.id not in fns and wf.body is not None:
                     missing[wf.id] = wf
